@@ -168,16 +168,36 @@ func topScalar(r *rng) interface{} {
 	return []byte{byte(r.u64()), 2, 3}
 }
 
+// the maps for a set of values, complete: ExtractTypeNameMap does not descend into a second
+// value of a type it has already seen (open finding C16-F1, the business of C16 and C01), so
+// every interface-held value inside is extracted on its own as well
 func mergeMaps(vals []interface{}) (map[string]reflect.Type, map[string]string) {
 	tm, nm := map[string]reflect.Type{}, map[string]string{}
-	for _, v := range vals {
-		t, n := hessian.ExtractTypeNameMap(v)
+	add := func(x interface{}) {
+		t, n, ok := safeExtract(x)
+		if !ok {
+			return
+		}
 		for k, x := range t {
-			tm[k] = x
+			if _, has := tm[k]; !has {
+				tm[k] = x
+			}
 		}
 		for k, x := range n {
-			nm[k] = x
+			if _, has := nm[k]; !has {
+				nm[k] = x
+			}
 		}
+	}
+	for _, v := range vals {
+		add(v)
+	}
+	for _, v := range vals {
+		forEachInner(reflect.ValueOf(v), map[uintptr]bool{}, func(x reflect.Value) {
+			if x.CanInterface() {
+				add(x.Interface())
+			}
+		})
 	}
 	return tm, nm
 }
